@@ -130,7 +130,7 @@ def goal_beta(gid, x, a, b, obs, info):
     prelude = "rewrite (Ibeta_half %d %d %s %s %s) by (rewrite ?INR_lit; simpl; lra)." % (p, q, as_, bs, xs)
     fun = "(fun t => sqrt t ^ %d * sqrt (1 - t) ^ %d)" % (p, q)
     # each integral to 1e-11 relative: the ratio is then within 3e-11 of the truth
-    rel = Fraction(1, 10 ** 11)
+    rel = Fraction(1, 10 ** 10)
     integrals = [dict(term="RInt %s 0 %s" % (fun, xs), pat="RInt _ 0 %s" % xs, ref="bint(%s,%s,%s)" % (m2.pylit(a), m2.pylit(b), m2.pylit(x)), rel=rel),
                  dict(term="RInt %s 0 1" % fun, pat="RInt _ 0 1", ref="bint(%s,%s,1)" % (m2.pylit(a), m2.pylit(b)), rel=rel)]
     if x == 1:
